@@ -13,7 +13,7 @@ from __future__ import annotations
 import copy
 from typing import Any, Dict, List
 
-from .. import core, machine
+from .. import core, machine, progen
 from ..rng import Rng
 from ..rshost import host
 from ..runner import Batch, digest
@@ -32,7 +32,7 @@ COMPONENTS = {
     "stub": ["binja_test_mocks LLIL evaluator", "flat bus (see C06)"],
 }
 ASSUMPTIONS = ["TEMP registers, call-depth counters and perf counters themselves are not compared (they are the hidden state)"]
-PROBES = ["prefix_block", "prefix_call", "scramble", "focus_ret", "focus_block", "split_in_handler",
+PROBES = ["rom_stub_reached", "prefix_block", "prefix_call", "scramble", "focus_ret", "focus_block", "split_in_handler",
           "repeat_identical", "tracing_on_off"]
 FOCUS_OPS = [0x06, 0x07, 0x01, 0x04, 0x05, 0xCB, 0xCF, 0xD3, 0xDB, 0xE3, 0xEB, 0xF3, 0xFB, 0x54, 0x55, 0x5C, 0x5D, 0xC4, 0xC5,
              0xD4, 0xD5, 0xEC, 0xFC, 0xC0, 0xC1, 0xC2, 0xC3, 0xDD, 0xED, 0x6C, 0x7C, 0x28, 0x29, 0x2A, 0x2B, 0x2C, 0x2D, 0x2E, 0x2F,
@@ -43,10 +43,10 @@ def batches(tier: str) -> List[Batch]:
     if tier == "quick":
         return [Batch("rs-hist", "rs-core", 20000, 200), Batch("py-hist", "py-core", 480, 6),
                 Batch("rs-split", "rs-machine", 3000, 100), Batch("py-split", "py-machine", 240, 6),
-                Batch("py-trace", "py-machine", 160, 8)]
+                Batch("py-trace", "py-machine", 160, 8), Batch("rs-dev", "rs-machine", 2000, 100)]
     return [Batch("rs-hist", "rs-core", 1500000, 500), Batch("py-hist", "py-core", 150000, 50),
             Batch("rs-split", "rs-machine", 150000, 300), Batch("py-split", "py-machine", 8000, 10),
-            Batch("py-trace", "py-machine", 6000, 10)]
+            Batch("py-trace", "py-machine", 6000, 10), Batch("rs-dev", "rs-machine", 60000, 200)]
 
 
 def generate(batch: str, r: Rng, idx: int, tier: str) -> Dict[str, Any]:
@@ -59,6 +59,8 @@ def generate(batch: str, r: Rng, idx: int, tier: str) -> Dict[str, Any]:
         scn = machine.gen_machine_scenario(r, "py-machine", feat, boundaries=r.choice([30, 60, 120]), faulty=True)
         scn["kind"] = "trace"
         return scn
+    if batch == "rs-dev":
+        return _gen_dev(r)
     if batch.endswith("split"):
         ex = "rs-machine" if batch.startswith("rs") else "py-machine"
         feat = machine.gen_features(r.child("feat"), {"timers": True, "imr_writes": True, "isr_writes": True, "wait": True,
@@ -113,6 +115,106 @@ def generate(batch: str, r: Rng, idx: int, tier: str) -> Dict[str, Any]:
 
 
 # ----------------------------------------------------------------------------------------
+
+
+SIO_STUBS = [0xEB030, 0xEB31C, 0xEB33D]
+
+
+def _gen_dev(r: Rng) -> Dict[str, Any]:
+    """A Rust machine put together the way a front end does it (DeviceModel::configure_runtime: the ROM's serial
+    routines at 0xEB030 / 0xEB31C / 0xEB33D are answered by a stub).  Firmware far-calls a function that — after
+    optional near calls of its own — tail-jumps into one of those routines; the routine's return must lead back to
+    the far call's successor.  Replica B is the same machine with its call bookkeeping scrambled at one boundary
+    (frames left behind by earlier code that unwound its stack by hand); every boundary is compared."""
+    from ..progen import SK
+    base = progen.CODE_BASE
+    code: List[int] = []
+    ins: Dict[str, list] = {}
+
+    def emit(bs, tag=""):
+        ins[str(base + len(code))] = [len(bs), tag]
+        code.extend(bs)
+
+    for _ in range(r.range(1, 4)):
+        emit(SK["NOP"][0], "NOP")
+    callf_at = len(code)
+    emit([0x05, 0, 0, 0], "CALLF:F")
+    for _ in range(r.range(3, 8)):
+        emit(SK["NOP"][0], "NOP")
+    stop = len(code)
+    emit([0x12, 0xFE & 0x00], "JR+0")              # placeholder, replaced below by a tight loop
+    code[stop:stop + 2] = [0x13, 0x02]             # JR -2: stay here
+    f_at = len(code)
+    for _ in range(r.range(0, 3)):
+        emit(SK["NOP"][0], "NOP")
+    helpers = r.range(0, 2)
+    call_sites = []
+    for _ in range(helpers):
+        call_sites.append(len(code))
+        emit([0x04, 0, 0], "CALL:H")
+        emit(SK["NOP"][0], "NOP")
+    stub = r.choice(SIO_STUBS)
+    emit([0x03, stub & 0xFF, (stub >> 8) & 0xFF, (stub >> 16) & 0xFF], "JPF:stub")
+    h_at = len(code)
+    emit(SK["NOP"][0], "SUB:H")
+    emit(SK["RET"][0], "RET")
+    fa = base + f_at
+    code[callf_at + 1:callf_at + 4] = [fa & 0xFF, (fa >> 8) & 0xFF, (fa >> 16) & 0xFF]
+    ha = base + h_at
+    for cs in call_sites:
+        code[cs + 1:cs + 3] = [ha & 0xFF, (ha >> 8) & 0xFF]
+    n = 12 + 4 * helpers + 8
+    prog = {"image": [[base, code]], "rom_tail": [0, 0, 0, base & 0xFF, (base >> 8) & 0xFF, (base >> 16) & 0xFF],
+            "entry": base, "main": base, "handler": base, "code": [base, 0xFFFFF], "ins": ins, "style": "dev"}
+    rs = r.child("scramble")
+    width = rs.choice([16, 24])
+    at = rs.range(0, n - 1)
+    scr = [at, "scramble", [rs.below(1 << 24) for _ in range(14)], rs.below(8),
+           [rs.below(16) << 16 for _ in range(rs.range(1, 3))], rs.below(1 << 30), width]
+    return {"kind": "dev", "exec": "rs-machine", "device": r.choice(["pce500", "pce500", "jp"]), "prog": prog,
+            "regs": {"PC": base, "S": progen.S_INIT, "U": progen.U_INIT, "BA": 0x1234, "I": 0, "X": 0, "Y": 0, "F": 0},
+            "imem": [[progen.IMR, 0], [progen.ISR, 0]], "timer": {"enabled": False, "mti": 0, "sti": 0},
+            "kb": {"press": 1, "release": 1, "repeat_delay": 24, "repeat_interval": 6, "active_high": True},
+            "h_range": [ha, ha + 1], "boundaries": n, "ops": [], "scramble_op": scr, "watch": [[progen.S_INIT - 16, 16]], "feat": {}, "faulty": False,
+            "stub": stub, "top_frame": width}
+
+
+def _exec_dev(scn: Dict[str, Any]) -> Dict[str, Any]:
+    a = machine.run_machine(scn)
+    b_scn = dict(scn)
+    b_scn["ops"] = [scn["scramble_op"]]
+    b = machine.run_machine(b_scn)
+    return {"a": {"obs": [o[:machine.O_SHADOW] for o in a["obs"]], "err": a["err"]},
+            "b": {"obs": [o[:machine.O_SHADOW] for o in b["obs"]], "err": b["err"]}}
+
+
+def _check_dev(scn: Dict[str, Any], hist: Dict[str, Any]) -> List[Dict[str, Any]]:
+    from .c16 import FIELDS
+    viols: List[Dict[str, Any]] = []
+    a, b = hist["a"]["obs"], hist["b"]["obs"]
+    probes = hist.setdefault("_probes", {})
+    if any(o[machine.O_PC] in SIO_STUBS for o in a):
+        probes["rom_stub_reached"] = 1
+    for k in range(min(len(a), len(b))):
+        for name, idx in FIELDS:
+            if a[k][idx] != b[k][idx]:
+                at_stub = k > 0 and a[k - 1][machine.O_PC] in SIO_STUBS
+                ks = scn["scramble_op"][0]
+                live_near = ks < len(a) and scn["h_range"][0] <= a[ks][machine.O_PC] <= scn["h_range"][1]
+                # the stub reads the width of the innermost frame of the bookkeeping: with stale frames of the far call's
+                # own width and no near call live when they appeared, fresh and scrambled bookkeeping say the same
+                agrees = scn["top_frame"] == 24 and not live_near
+                viols.append({"cls": "history_dependence", "executor": "rs-machine",
+                              "where": {"field": name, "level": "device_machine", "at": "rom_stub_entry" if at_stub else "elsewhere",
+                                        "stale_frame_width": scn["top_frame"], "bookkeeping_agrees": agrees},
+                              "msg": f"boundary {k} (pc before {a[k - 1][machine.O_PC] if k else 0:#x}): {name} = {_s(a[k][idx])} on the fresh "
+                                     f"machine, {_s(b[k][idx])} on the one whose call bookkeeping was scrambled at boundary "
+                                     f"{scn['scramble_op'][0]} (stale frames of width {scn['top_frame']})", "at": k})
+                return viols
+    if len(a) != len(b) or hist["a"]["err"] != hist["b"]["err"]:
+        viols.append({"cls": "history_dependence", "executor": "rs-machine", "where": {"field": "run_end", "level": "device_machine"},
+                      "msg": f"runs end differently: {hist['a']['err']} vs {hist['b']['err']}", "at": min(len(a), len(b))})
+    return viols
 
 
 def _full_image(scn: Dict[str, Any]):
@@ -230,6 +332,8 @@ def execute(scn: Dict[str, Any]) -> Dict[str, Any]:
         return _exec_trace(scn)
     if scn["kind"] == "split":
         return _exec_split(scn)
+    if scn["kind"] == "dev":
+        return _exec_dev(scn)
     return _exec_hist_py(scn) if scn["exec"] == "py-core" else _exec_hist_rs(scn)
 
 
@@ -245,6 +349,8 @@ def _first_diff(a: List[list], b: List[list]):
 
 
 def check(scn: Dict[str, Any], hist: Dict[str, Any]) -> List[Dict[str, Any]]:
+    if scn["kind"] == "dev":
+        return _check_dev(scn, hist)
     ex = scn["exec"]
     viols: List[dict] = []
     if scn["kind"] == "trace":
@@ -309,6 +415,13 @@ def _s(v):
 
 def stats(scn: Dict[str, Any], hist: Dict[str, Any]) -> Dict[str, Any]:
     probes: Dict[str, int] = {}
+    if scn["kind"] == "dev":
+        probes = dict(hist.get("_probes") or {})
+        probes["scramble"] = 1
+        obs = hist["a"]["obs"]
+        return {"nontrivial": bool(probes.get("rom_stub_reached")), "sig": digest([scn["prog"]["image"], scn["scramble_op"], scn["device"]]),
+                "faults": {"hidden_scramble": 1}, "probes": probes, "cycles": obs[-1][machine.O_CYC] if obs else 0,
+                "boundaries": 2 * len(obs)}
     if scn["kind"] == "trace":
         obs = hist["off"]["obs"]
         probes["tracing_on_off"] = 1
@@ -340,6 +453,9 @@ def stats(scn: Dict[str, Any], hist: Dict[str, Any]) -> Dict[str, Any]:
 
 
 def sample(scn: Dict[str, Any], hist: Dict[str, Any]) -> Dict[str, Any]:
+    if scn["kind"] == "dev":
+        return {"executor": scn["exec"], "device": scn["device"], "stub": hex(scn["stub"]), "scramble_at": scn["scramble_op"][0],
+                "stale_frame_width": scn["top_frame"], "fresh": [o[:8] for o in hist["a"]["obs"][:6]]}
     if scn["kind"] == "trace":
         return {"executor": scn["exec"], "boundaries": scn["boundaries"], "ops": scn["ops"][:8],
                 "tracing_off": [o[:12] for o in hist["off"]["obs"][:4]], "tracing_on": [o[:12] for o in hist["on"]["obs"][:4]]}
@@ -352,6 +468,15 @@ def sample(scn: Dict[str, Any], hist: Dict[str, Any]) -> Dict[str, Any]:
 
 
 def shrink(scn: Dict[str, Any]):
+    if scn["kind"] == "dev":
+        op = scn["scramble_op"]
+        for cand in ([0] * 14, op[2]):
+            for pages in (op[4][:1], op[4]):
+                if cand != op[2] or pages != op[4]:
+                    c = copy.deepcopy(scn)
+                    c["scramble_op"] = [op[0], "scramble", cand, 0, pages, 0, op[6]]
+                    yield c
+        return
     if scn["kind"] == "trace":
         from . import c12
         yield from c12.shrink(scn)
